@@ -12,6 +12,7 @@ import (
 	"runtime"
 	"strconv"
 	"sync"
+	"sync/atomic"
 	"time"
 
 	"github.com/advancedclimatesystems/gonnx"
@@ -43,6 +44,17 @@ func goid() int64 {
 	}
 	id, _ := strconv.ParseInt(string(f[1]), 10, 64)
 	return id
+}
+
+// schedHung: a Run of some case of this process did not return
+var schedHung atomic.Bool
+
+// gateWait: how long the scheduler and the spy wait for each other before they go on regardless
+func gateWait() time.Duration {
+	if schedHung.Load() {
+		return 50 * time.Millisecond
+	}
+	return 5 * time.Second
 }
 
 type gate struct {
@@ -79,7 +91,7 @@ func (s *spyOp) signal() {
 		if !free {
 			select {
 			case s.g.done[s.run] <- struct{}{}:
-			case <-time.After(5 * time.Second):
+			case <-time.After(gateWait()):
 			}
 		}
 	}
@@ -93,7 +105,7 @@ func (s *spyOp) Init(n *onnx.NodeProto) error {
 		if !free {
 			select {
 			case <-s.g.permit[s.run]:
-			case <-time.After(5 * time.Second):
+			case <-time.After(gateWait()):
 			}
 		}
 	}
@@ -198,7 +210,7 @@ func execSchedCase(c *Case) []ModeResult {
 		select {
 		case <-g.done[r]:
 		case <-finished[r]:
-		case <-time.After(5 * time.Second):
+		case <-time.After(gateWait()):
 		}
 	}
 	for _, tok := range sc.Schedule {
@@ -226,8 +238,20 @@ func execSchedCase(c *Case) []ModeResult {
 			}
 		}
 	}
+	// every node has been permitted: a Run takes milliseconds from here. One that has not returned after two minutes is blocked
+	// inside the library (nothing of the harness holds it any more) - Runs that do not return are reported, not waited for
 	for r := 0; r < n; r++ {
-		<-finished[r]
+		wait := 120 * time.Second
+		if schedHung.Load() {
+			wait = 3 * time.Second // the process already holds Runs that never return: the remaining cases are not waited for at length
+		}
+		select {
+		case <-finished[r]:
+		case <-time.After(wait):
+			schedHung.Store(true)
+			close(stopLoad)
+			return []ModeResult{{fmt.Sprintf("run%d", r+1), fmt.Sprintf("violation:Run %d of %d concurrent Runs did not return within 120 seconds after its last node was released: it is blocked inside the library", r+1, n), ""}}
+		}
 	}
 	close(stopLoad)
 	wg.Wait()
